@@ -376,6 +376,7 @@ func implRead(t []string) string {
 		return "init-err"
 	}
 	var res []string
+	var held []heldFrame
 	for calls := 0; ; calls++ {
 		if calls > len(items)+2 {
 			res = append(res, "NO-PROGRESS")
@@ -397,9 +398,20 @@ func implRead(t []string) string {
 			res = append(res, "T"+ioKind(err.Error()))
 			continue
 		}
-		res = append(res, "F"+encFrame(fr))
+		// rendered only after the whole stream has been read: a frame the reader returned belongs to the caller, whatever the
+		// reader does afterwards (it must not share memory with the reader's buffers)
+		res = append(res, "")
+		held = append(held, heldFrame{len(res) - 1, fr})
+	}
+	for _, h := range held {
+		res[h.at] = "F" + encFrame(h.fr)
 	}
 	return strings.Join(res, " ") + " cur=" + strconv.FormatUint(readerCur(r), 10)
+}
+
+type heldFrame struct {
+	at int
+	fr frame.Frame
 }
 
 func implTlogRead(t []string) string {
@@ -414,6 +426,7 @@ func implTlogRead(t []string) string {
 		return "init-err"
 	}
 	var res []string
+	var heldE []heldEntry
 	for calls := 0; ; calls++ {
 		if calls > len(items)+2 {
 			res = append(res, "NO-PROGRESS")
@@ -434,9 +447,19 @@ func implTlogRead(t []string) string {
 			}
 			continue
 		}
-		res = append(res, fmt.Sprintf("N%d/%d/%d/%s", e.Time.UnixMicro(), e.Time.Unix(), e.Time.Nanosecond(), encFrame(e.Frame)))
+		// rendered after the whole log has been read (see implRead)
+		res = append(res, "")
+		heldE = append(heldE, heldEntry{len(res) - 1, e})
+	}
+	for _, h := range heldE {
+		res[h.at] = fmt.Sprintf("N%d/%d/%d/%s", h.e.Time.UnixMicro(), h.e.Time.Unix(), h.e.Time.Nanosecond(), encFrame(h.e.Frame))
 	}
 	return strings.Join(res, " ")
+}
+
+type heldEntry struct {
+	at int
+	e  *tlog.Entry
 }
 
 // swrite <dialect> <ver> <sys> <comp> <link> <key> <items: MSG@sinceRefNs,...>
